@@ -75,6 +75,20 @@ def cycle(d, prefix, root):
         notes += " nondeterministic-write"
     if sx(xser.ldef(d)) != snap:
         notes += " definition-altered-by-write"
+    # the file-writing entry point produces the same document, for a path given as `str` or as `Path`
+    import tempfile, pathlib, os
+    with tempfile.TemporaryDirectory() as td:
+        for arg in (os.path.join(td, "a.xml"), pathlib.Path(td) / "b.xml"):
+            try:
+                with warnings.catch_warnings():
+                    warnings.simplefilter("ignore")
+                    d.write_xml(arg)
+                with open(arg, "rb") as fh:
+                    # same document (canonical form: the file writer may differ in the trailing newline only)
+                    if ET.tostring(ET.fromstring(fh.read()), method="c14n") != ET.tostring(ET.fromstring(g1), method="c14n"):
+                        notes += " write_xml-differs"
+            except Exception as e:  # noqa: BLE001
+                notes += f" write_xml-failed:{type(arg).__name__}:{type(e).__name__}"
     # the same for an undated definition (its header date comes from the clock at write time, so only the object
     # is looked at, never the bytes)
     keep = d.date
